@@ -92,7 +92,8 @@ NewBatch(id, due) == [id |-> id, total |-> 0, expected |-> NoAmt, received |-> N
 SubmitBatch(c, call, now) ==
   LET b  == c.pend
       bt == c.batches[b]
-      why == R(c.stopped, "halted")
+      why == IF b \notin BatchIds(c) THEN {"no_pending_batch"}      \* (observed stores only)
+             ELSE R(c.stopped, "halted")
              \cup R(bt.due = NoAmt \/ now < bt.due, "not_due")
              \cup R({r \in c.reqs : r.b = b} = {}, "empty_batch")
              \cup R(c.L < bt.total, "insufficient_lst")
@@ -105,6 +106,7 @@ SubmitBatch(c, call, now) ==
                                          NewBatch(b + 1, now + c.cfg.batchPeriod))]
   IN IF why # {} THEN Err(c, why) ELSE Ok(c1, <<TfBurn(c, bt.total)>> \o OracleMsgs(c1))
 
+SafePayout(recv, own, total) == IF total = 0 THEN 0 ELSE Payout(recv, own, total)
 \* execute.rs execute_withdraw; the oracle post it makes is optional (totals unchanged)
 Withdraw(c, call) ==
   LET b == call.b
@@ -115,7 +117,10 @@ Withdraw(c, call) ==
              \cup R(~known, "no_batch")
              \cup R(known /\ ~recvd, "not_received")
              \cup R(ReqsOf(c, b, call.s) = {}, "no_request")
-      pay == Payout(c.batches[b].received, own, c.batches[b].total)
+             \* (no reachable store has a request in a batch whose total is zero; the validator also evaluates this
+             \*  operator on OBSERVED stores, where the code can only fail - it divides by the total)
+             \cup R(recvd /\ ReqsOf(c, b, call.s) # {} /\ c.batches[b].total = 0, "batch_total_is_zero")
+      pay == SafePayout(c.batches[b].received, own, c.batches[b].total)
       c1 == [c EXCEPT !.reqs = c.reqs \ ReqsOf(c, b, call.s)]
   IN IF why # {} THEN Err(c, why)
      ELSE Ok(c1, <<Send(call.s, c.cfg.natDen, pay)>> \o OracleMsgs(c1))
